@@ -145,6 +145,43 @@ class OpsDomain(SymDomain):
             self.region.private.add(r.id)
         return r
 
+    def new_object(self, cls, e, fr):
+        """an object constructed inside a parallel region is the constructing thread's own: so are the arrays it holds"""
+        o = SymDomain.new_object(self, cls, e, fr)
+        if self.region is not None:
+            self.region.__dict__.setdefault("local_objs", {})[id(o)] = o
+            self.mark_private(o)
+        return o
+
+    def clone_arr(self, x):
+        a = SymDomain.clone_arr(self, x)
+        if self.region is not None:
+            self.region.private.add(a.id)      # a copy made inside the region is new storage of the copying thread
+        return a
+
+    def mark_private(self, o):
+        seen = set()
+
+        def mark(x):
+            if id(x) in seen:
+                return
+            seen.add(id(x))
+            if isinstance(x, Arr):
+                self.region.private.add(x.id)
+            elif isinstance(x, Obj):
+                for c in x.f.values():
+                    mark(c.get() if isinstance(c, Cell) else c)
+            elif isinstance(x, (list, tuple)):
+                for y in x:
+                    mark(y)
+        mark(o)
+
+    def leave(self, fn, this, fr):
+        # a constructor that ran inside the region for an object created there has just filled in its members (copies of
+        # the arrays its initialisers built): they belong to that object
+        if self.region is not None and fn.get("special") and id(this) in getattr(self.region, "local_objs", {}):
+            self.mark_private(this)
+
     # ------------------------------------------------------------ OpenMP
     def clause(self, s, name):
         for c in s.get("clauses", []):
